@@ -20,6 +20,34 @@ def validate(work, trace, cfg, tag):
     return out, r
 
 
+def realtick_stage(work, v, thorough):
+    binp = vlib.go_build_test(work, "./internal/")
+    out = work.sub("realtick")
+    rc, o = vlib.run_test_bin(binp, "^TestVerif_C04RealTick$", timeout=300,
+                              env={"VERIF_OUT": out, "VERIF_IDLE_MS": 20000 if thorough else 8500})
+    if rc != 0:
+        if vlib.code_panic(o):
+            raise vlib.CodePanic(vlib.code_panic(o), o)
+        raise vlib.MachineryError("real-time ticker harness failed rc=%s:\n%s" % (rc, (o or "")[-3000:]))
+    tf = os.path.join(out, "realtick.ndjson")
+    res = work.path("realtick_result.json")
+    r = vlib.run_tlc(work, "RealTick", "RealTick.cfg", workers=1, tag="realtick", env={"VERIF_TRACE": tf, "VERIF_RESULT": res}, timeout=600)
+    if r.error or not os.path.exists(res):
+        raise vlib.MachineryError("real-time trace validation failed: %s" % (r.error or r.out[-1500:]))
+    j = json.load(open(res))
+    if j["consumed"] != j["lines"] or j["entries"] == 0:
+        raise vlib.MachineryError("real-time trace not consumed (%s of %s lines, %s entries)" % (j["consumed"], j["lines"], j["entries"]))
+    seen = set()
+    for (tid, line, kind) in j["viol"]:
+        if (tid, kind) in seen:
+            continue
+        seen.add((tid, kind))
+        v.report("real time: %s in scenario %s at line %s" % (kind, tid, line), tf)
+    return {"real_time_entries_timed": j["entries"],
+            "real_time_rule": "EXPIRED notification no earlier than the deadline and at most 2^30 ns + 1 s (+0.9 s scheduling slack) after it, "
+                              "after idle periods up to %s s and on a busy store; real clock, the code's own ticker" % (20 if thorough else 8.5)}
+
+
 def run(tier, work):
     t0 = time.time()
     thorough = tier == "thorough"
@@ -129,6 +157,8 @@ def run(tier, work):
     # the wheel slots are intrusive lists over the entries' second link set (List.tla at pointer grain)
     import listcheck
     cov.update(listcheck.stage(work, v, "C04", thorough))
+    # 8. real time: the code's own ticker on untouched stores (idle periods before the first deadline, busy store)
+    cov.update(realtick_stage(work, v, thorough))
     rcode = v.finish()
     if total_div:
         print("note: %d step(s) where the real wheel's placement/removal differs from TimerWheel.tla "
